@@ -118,6 +118,14 @@ fn adv_pc(e: &mut Ent, len: u32) -> u32 {
 }
 
 pub fn build(e: &mut Ent) -> FCase {
+    // well-formed MES calls (long valid UTF-8 texts, every vector number): faults deep inside the
+    // emulator's own services are only reachable through well-formed requests
+    if e.chance(1, 12) {
+        let (c, _) = super::c14::build(e, None, None);
+        let mut code = c.code.clone();
+        code.resize(10, 0);
+        return FCase { code, pc: c.pc, er: c.er, ccr: c.ccr, bus: [e.u8(), e.u8(), e.u8(), e.u8(), e.u8()], timer: [0, e.u8(), e.u8(), e.u8(), e.u8()], patches: c.patches, elapse: e.u8() };
+    }
     // instruction bytes: a valid form with adversarial fields, or raw words
     let mut code: Vec<u8> = match e.below(10) {
         0..=2 => (0..10).map(|_| e.u8()).collect(),
@@ -246,7 +254,16 @@ pub fn panic_key(p: &str) -> String {
     let (msg, loc) = p.rsplit_once(" @ ").unwrap_or((p, ""));
     let file = loc.rsplit_once(':').map(|x| x.0).unwrap_or(loc);
     let file = file.rsplit('/').take(2).collect::<Vec<_>>().into_iter().rev().collect::<Vec<_>>().join("/");
-    let msg: String = msg.chars().filter(|c| !c.is_ascii_digit()).take(70).collect();
+    // keep the stable head of the message: cut at the first value-dependent part
+    let mut head = msg;
+    for stop in [" inside ", "`", "[0x", "'", "\"", ": "] {
+        if let Some(i) = head.find(stop) {
+            if i > 12 {
+                head = &head[..i];
+            }
+        }
+    }
+    let msg: String = head.chars().filter(|c| !c.is_ascii_digit() && !c.is_control()).take(70).collect();
     format!("panic: {} [{}]", msg.trim(), file)
 }
 
@@ -597,6 +614,10 @@ pub fn run(ctx: &Ctx) -> i32 {
     let child_out = std::env::var("H8VERIF_C15_CHILD").ok();
     if let Some(v) = &ctx.replay {
         let case = v.get("case").unwrap_or(v);
+        if case.get("kind").and_then(|k| k.as_str()) == Some("fuzz") {
+            // the fuzz target is built in the checked arithmetic mode; replay in this profile
+            return replay_fuzz(P, v).unwrap_or(2);
+        }
         let mine = replay_case(ctx, case);
         if child_out.is_some() {
             // child of a replay: report through the exit code
@@ -664,6 +685,9 @@ pub fn run(ctx: &Ctx) -> i32 {
         }
     }
     let _ = std::fs::remove_file(&out);
+    if ctx.tier == Tier::Thorough {
+        fuzz_campaign(ctx, "fuzz_step", 8, 400_000, 64, &mut stats);
+    }
     let plain_ok: u64 = stats.classes.iter().filter(|(k, _)| k.contains("step outcome Ok")).map(|(_, v)| *v).sum();
     let steps: u64 = stats.classes.iter().filter(|(k, _)| k.contains("step outcome")).map(|(_, v)| *v).sum();
     extra.insert("fraction_of_steps_that_simply_succeed".into(), json!(if steps > 0 { plain_ok as f64 / steps as f64 } else { 0.0 }));
